@@ -3,7 +3,7 @@
    GetPixelData; splitLengths / nextCoord / resolutionDimsWithOrigin / bandInfosForResolution of
    encoder.go and t2/geometry.go; getSubbandsForResolution; partitionIntoCodeBlocks;
    buildAndDecodeCodeBlocks grid; assembleSubbands). *)
-From V Require Import Common.Base J2KGeo.GeoModel J2KGeo.GeoProofsSamples J2KGeo.GeoProofsTiles
+From V Require Import Common.Base J2KGeo.GeoModel J2KGeo.GeoProofsSamples J2KGeo.GeoProofsPixels J2KGeo.GeoProofsTiles
   J2KGeo.GeoProofsBands J2KGeo.GeoProofsBlocks DWT.DwtModel.
 
 (* Samples.  For every precision 1..16, signed or not, every representable value v: the encoder
@@ -26,6 +26,28 @@ Example C04_sample_codec_nonvacuous :
   in_sample_range 5 true (-3) /\ pack_sample 5 (-3) = [29] /\ enc_sample 5 true [29] = -3 /\
   in_sample_range 16 false 65535 /\ dc_shift 16 false 65535 = 32767.
 Proof. unfold in_sample_range. vm_compute. repeat split; congruence. Qed.
+
+(* Whole images (1 to 4 or any number >= 1 of components, any number of pixels): for an
+   interleaved image packed in that container, convertPixelData yields component arrays holding
+   the true sample values (component c, pixel i = sample i*comps + c) and GetPixelData after the
+   level shift and its inverse returns the input bytes — single-component and interleaved path. *)
+Theorem C04_pixel_roundtrip : forall (P : Z) (signed : bool) (numPixels comps : Z) (samples : list Z),
+  1 <= P <= 16 -> 0 <= numPixels -> 1 <= comps -> zlen samples = numPixels * comps ->
+  Forall (in_sample_range P signed) samples ->
+  exists data, convert_pixel_data numPixels comps P signed (flat_map (pack_sample P) samples) = Ok data /\
+    pixel_data_in_range numPixels comps data = true /\
+    (forall c i, 0 <= c < comps -> 0 <= i < numPixels ->
+       zn0 (nth (Z.to_nat c) data []) (Z.to_nat i) = zn0 samples (Z.to_nat (i * comps + c))) /\
+    get_pixel_data numPixels comps P signed (level_unshift_all P signed (level_shift_all P signed data))
+      = flat_map (pack_sample P) samples.
+Proof. exact pixel_roundtrip. Qed.
+Print Assumptions C04_pixel_roundtrip.
+
+Example C04_pixel_roundtrip_nonvacuous :
+  zlen [-1; 2; -3; 4; 5; -6] = 2 * 3 /\ Forall (in_sample_range 4 true) [-1; 2; -3; 4; 5; -6] /\
+  flat_map (pack_sample 4) [-1; 2; -3; 4; 5; -6] = [15; 2; 13; 4; 5; 10] /\
+  convert_pixel_data 2 3 4 true [15; 2; 13; 4; 5; 10] = Ok [[-1; 4]; [2; 5]; [-3; -6]].
+Proof. unfold in_sample_range. split; [reflexivity|]. split; [repeat constructor; vm_compute; congruence|vm_compute; split; reflexivity]. Qed.
 
 (* Bands, one resolution: the HL, LH, HH rectangles of bandInfosForResolution and the rectangle
    of the next lower resolution partition the resolution rectangle (lowW + highW = resW,
